@@ -8,11 +8,13 @@
 
 #define ALN_SEQSEQ_IMPORT
 #include "aln_seqseq.h"
+#include "kalign_verif.h"
 #define MAX(a, b) (a > b ? a : b)
 #define MAX3(a,b,c) MAX(MAX(a,b),c)
 
 int aln_seqseq_foward(struct aln_mem* m)
 {
+        KALIGN_VERIF_EVENT(KV_EV_FWD_BEGIN, m, NULL, 0, 0, 0);
         struct states* s = m->f;
         const uint8_t* seq1 = m->seq1;
         const uint8_t* seq2 = m->seq2;
@@ -107,11 +109,13 @@ int aln_seqseq_foward(struct aln_mem* m)
                         s[j].gb = MAX(s[j].gb,ca)-tgpe;
                 }
         }
+        KALIGN_VERIF_EVENT(KV_EV_FWD_END, m, NULL, 0, 0, 0);
         return OK;
 }
 
 int aln_seqseq_backward(struct aln_mem* m)
 {
+        KALIGN_VERIF_EVENT(KV_EV_BWD_BEGIN, m, NULL, 0, 0, 0);
         struct states* s = m->b;
         const uint8_t* seq1 = m->seq1;
         const uint8_t* seq2 = m->seq2;
@@ -219,12 +223,14 @@ int aln_seqseq_backward(struct aln_mem* m)
                         s[j].gb = MAX(s[j].gb,ca)-tgpe;
                 }
         }
+        KALIGN_VERIF_EVENT(KV_EV_BWD_END, m, NULL, 0, 0, 0);
         return OK;
 }
 
 
 int aln_seqseq_meetup(struct aln_mem* m,int old_cor[],int* meet,int* t,float* score)
 {
+        KALIGN_VERIF_EVENT(KV_EV_MEET_BEGIN, m, NULL, 0, 0, 0);
         struct states* f = m->f;
         struct states* b = m->b;
 
@@ -337,5 +343,6 @@ int aln_seqseq_meetup(struct aln_mem* m,int old_cor[],int* meet,int* t,float* sc
         *meet = c;
         *t = transition;
         *score = max;
+        KALIGN_VERIF_EVENT(KV_EV_MEET_END, m, NULL, 0, c, transition);
         return OK;
 }
